@@ -52,6 +52,14 @@ func c10Prop(c *sim.Case) {
 	// limits cross); the large ones are there for units and arithmetic
 	abs := time.Duration(c10Timeouts[sim.Weighted(c, "abs", 4, 4, 4, 4, 4, 4, 1, 1)]) * time.Second
 	idle := time.Duration(c10Timeouts[sim.Weighted(c, "idle", 4, 4, 4, 4, 4, 4, 1, 1)]) * time.Second
+	crossing := false
+	if sim.Weighted(c, "both-limits-close", 2, 1) == 1 {
+		// both limits set, the idle one shorter: the region in which the governing limit changes during a session's life
+		p := [][2]int{{5, 3}, {5, 2}, {3, 2}, {3, 1}, {5, 1}, {60, 5}, {60, 3}}[sim.Pick(c, "both.pair", 7)]
+		abs, idle = time.Duration(p[0])*time.Second, time.Duration(p[1])*time.Second
+		crossing = true
+		c.Class("both-limits-close")
+	}
 	clk := sim.NewVClock()
 	st := sim.NewStore(kind, clk, abs, idle)
 	ctx := context.Background()
@@ -250,7 +258,11 @@ func c10Prop(c *sim.Case) {
 					}
 				}
 			}
-			switch sim.Weighted(c, "adv.kind", 8, 4, 2, 4, 1) {
+			wCross := 4
+			if crossing {
+				wCross = 12
+			}
+			switch sim.Weighted(c, "adv.kind", 8, 4, 2, wCross, 1) {
 			case 4:
 				// hours and days: with limits that leave the session alive that long (or none at all) nothing may drop it
 				d = []time.Duration{2 * time.Hour, 25 * time.Hour, 40 * 24 * time.Hour}[sim.Pick(c, "adv.long", 3)]
